@@ -23,6 +23,7 @@ import c13_lib as L
 import c13_gen as G
 import c13_oracle as O
 import c13_coq as C
+import c13_tie
 
 FINISH = dict(level="proof",
               rule="one evaluation = one report (text + YAML) of the real CLI entry point compared cell by cell, or one double "
@@ -250,6 +251,8 @@ def run(ctx):
     disagree = coq_correspondence(ctx, cases, results, flagged)
     ctx.coverage["reports"]["coq_disagreements"] = disagree
     ctx.coverage["reports"]["oracle_flagged"] = len(flagged)
+    # T: the frontend's formatting / decision methods, regenerated from the current source, are the model (PropsGen/C13gen.v)
+    c13_tie.run(ctx, results)
     lay = [r for r in results if r.get("layout_error")]
     ctx.obligation("every report is tokenisable by the header layout", "correspondence", not lay,
                    "; ".join("%s: %s" % (r["name"], r["layout_error"]) for r in lay[:3]))
